@@ -1,5 +1,7 @@
 """C01 -- OrderedMultiDict == insertion-ordered list of pairs (structural clauses)."""
+import ast
 from rules import omdstep, onepass
+from rules.common import check_get_none_presence, txt
 
 SUBJECTS = ('dictutils.OrderedMultiDict', 'urlutils.OrderedMultiDict')
 
@@ -50,5 +52,18 @@ def run(ctx):
         onepass.check(ctx, ctx.program.func(cls + '.update_extend'), 'E', recv=ctx.program.cls(cls))
         onepass.check(ctx, ctx.program.func(cls + '.fromkeys'), 'keys', recv=ctx.program.cls(cls))
         onepass.first_seen(ctx, ctx.program.func(cls + '.update'))
+        check_get_none_presence(ctx, ctx.program.func(cls + '.__eq__'))
+        # constructor: positional source appended pair by pair (update_extend), keyword arguments assigned (update)
+        init = ctx.program.func(cls + '.__init__')
+        calls = {}
+        for n in ast.walk(init.node):
+            if isinstance(n, ast.Call) and isinstance(n.func, ast.Attribute) and txt(n.func.value) == 'self' and n.args:
+                calls[txt(n.args[0])] = n.func.attr
+        if 'kwargs' not in calls or 'args[0]' not in calls:
+            ctx.unknown('T17.init', init.fq, 'constructor argument handling not recognised: %s' % calls, init.loc)
+        else:
+            ctx.ob('T17.init', init.fq, 'the positional source is loaded with update_extend (every pair kept) and keyword arguments with '
+                   'update (assignment semantics: they replace pairs of the same key)',
+                   calls['args[0]'] == 'update_extend' and calls['kwargs'] == 'update', loc=init.loc, detail=str(calls))
     for r, n in (('T1', 14), ('T1r', 22), ('T2', 50), ('T4', 4), ('T5', 2), ('T8', 30), ('T18', 2), ('T3', 8), ('T23', 2)):
         ctx.need(r, n)
